@@ -163,8 +163,7 @@ Qed.
 Lemma recover_complete d s v : dget d s = Some (complete_entry v) -> fst (recover d s) = Hit v (v_body v) /\ refillable d s.
 Proof.
   intros H. unfold refillable, recover, complete_entry in *. rewrite H. cbn [f_meta f_data].
-  destruct (v_has_cl v); cbn [fst]; [split; [reflexivity|exact Logic.I]|].
-  rewrite Z.eqb_refl. cbn [fst]. split; [reflexivity|exact Logic.I].
+  destruct (v_has_cl v); rewrite Z.eqb_refl; cbn [fst]; split; try reflexivity; exact Logic.I.
 Qed.
 
 Lemma complete_new chunks cl : mkFile (concat chunks) (Some (new_version chunks cl, slen (concat chunks))) = complete_entry (new_version chunks cl).
